@@ -17,7 +17,9 @@ From Coq Require Import List NArith ZArith Bool.
 From H2V Require Import Base.Bytes Base.MachineInt Base.Result Impl.Hpack Impl.ServerConn Impl.ServerInst
   Proofs.SrvBase Spec.FlowLedger Proofs.SrvFlowLedger Proofs.SrvFlowDefs Proofs.SrvFlowEff
   Proofs.SrvFlowSafeC Proofs.SrvFlowEs Proofs.SrvFlowStall Proofs.SrvFlowAck Proofs.SrvFlowDone Proofs.SrvFlowGrant
-  Proofs.SrvFlowExamples.
+  Proofs.SrvFlowExamples
+  Proofs.SrvFlowDone Proofs.SrvFlowCDecomp Proofs.SrvFlowCExactC Proofs.SrvFlowCView Proofs.SrvFlowCTrack Proofs.SrvFlowCFin
+  Proofs.SrvFlowCExamples.
 Import ListNotations.
 Local Open Scope N_scope.
 
@@ -237,4 +239,172 @@ Proof.
   split; [|split; vm_compute; reflexivity].
   eexists. split; [vm_compute; reflexivity|]. split; [|split; vm_compute; reflexivity].
   unfold blocked_buffered. vm_compute. repeat split. discriminate.
+Qed.
+
+(* ====================================================================================================
+   The "and finishes" half, over whole runs, in terms of what the PEER has granted.
+   `timeline evs` is the history of C06_safety: grants count when the stream loop applies them, DATA when queued;
+   L = lrun ledger0 (timeline evs) is the peer's ledger after the run.
+   ==================================================================================================== *)
+
+(* exactness of the bookkeeping (C06_safety shows "at most"): after any events, while the stream loop and the write
+   loop run, the connection send window and the send window of EVERY stream of the table are the windows of the ledger:
+   initial window in force at opening + SETTINGS deltas + WINDOW_UPDATEs applied - DATA bytes queued *)
+Theorem C06_windows_exact : forall (hstate : Type) (dec_field : hstate -> N -> bytes -> dec_res hstate)
+    (enc_field : hstate -> bytes -> bytes -> bool -> bytes * hstate) (enc_set_max : hstate -> N -> hstate) cfg h0 evs,
+  let c := run dec_field enc_field enc_set_max cfg h0 evs in
+  let L := lrun ledger0 (timeline hstate dec_field enc_field enc_set_max cfg h0 evs) in
+  sc_sl_done c = false -> sc_wl_dead c = false ->
+  l_conn L = sc_clientWindow c /\ forall s, In s (sc_strms c) -> l_strm L (st_id s) = Some (st_window s).
+Proof. exact windows_exact. Qed.
+Print Assumptions C06_windows_exact.
+
+(* progress in the peer's terms, for ANY kind of body (buffered or streamed) and any number of streams sharing the
+   connection window: a table stream whose response has been handed over and still has bytes to send is held back by
+   a window of the peer's ledger that is not positive *)
+Theorem C06_waiting_blocked_by_ledger : forall (hstate : Type) (dec_field : hstate -> N -> bytes -> dec_res hstate)
+    (enc_field : hstate -> bytes -> bytes -> bool -> bytes * hstate) (enc_set_max : hstate -> N -> hstate) cfg h0 evs s,
+  let c := run dec_field enc_field enc_set_max cfg h0 evs in
+  let L := lrun ledger0 (timeline hstate dec_field enc_field enc_set_max cfg h0 evs) in
+  sc_sl_done c = false -> sc_wl_dead c = false -> In s (sc_strms c) ->
+  st_responded s && negb (st_handlerRunning s) && has_more_to_send s = true ->
+  l_conn L = sc_clientWindow c /\ l_strm L (st_id s) = Some (st_window s) /\
+  ((st_window s <= 0)%Z \/ (l_conn L <= 0)%Z).
+Proof. exact waiting_blocked_by_ledger. Qed.
+Print Assumptions C06_waiting_blocked_by_ledger.
+
+(* the whole-run theorem, for a BUFFERED body B (the restriction to buffered bodies is in this theorem only: for a
+   streamed body the bytes come from scripted reads and "the rest of the body" has no closed form in the model).
+   For every event list evs1 ++ EvDone sid r :: evs2 (all schedules, any number of other streams): if the handler's
+   return is taken while the stream is in the table with its handler running, and at the end both loops run, the
+   connection is not closing, the server has sent no RST_STREAM on sid and the stream loop has taken none from the
+   peer, THEN the response frames of sid in the trace are exactly HEADERS followed by DATA frames (each 1..16384
+   bytes) whose payloads concatenate, in order, to a prefix of B, and EITHER the stream has left the table with all of
+   B sent and END_STREAM on the last frame and nowhere else (on the HEADERS when B is empty), OR it is in the table
+   holding exactly the rest of B, no END_STREAM sent, and one of its two windows is not positive, where the windows
+   are the ledger's. (`rf sid` filters the HEADERS/DATA frames of sid; `taken_from c evs` lists the frames the stream
+   loop takes during evs.) *)
+Theorem C06_response_progress : forall (hstate : Type) (dec_field : hstate -> N -> bytes -> dec_res hstate)
+    (enc_field : hstate -> bytes -> bytes -> bool -> bytes * hstate) (enc_set_max : hstate -> N -> hstate) cfg h0
+    evs1 sid r B evs2,
+  let c1 := run dec_field enc_field enc_set_max cfg h0 evs1 in
+  let evs := evs1 ++ EvDone sid r :: evs2 in
+  let c := run dec_field enc_field enc_set_max cfg h0 evs in
+  let L := lrun ledger0 (timeline hstate dec_field enc_field enc_set_max cfg h0 evs) in
+  rs_body r = BBuffered B ->
+  sc_sl_done c1 = false -> take_stream (sc_gone c1) sid = None ->
+  (exists s, strms_search (sc_strms c1) sid = Some s /\ st_handlerRunning s = true) ->
+  sc_sl_done c = false -> sc_wl_dead c = false -> sc_closing c = false ->
+  (forall o code, In o (trace c) -> strip o <> ORst sid code) ->
+  (forall fr, In fr (taken_from hstate dec_field enc_field enc_set_max cfg
+                       (step dec_field enc_field enc_set_max cfg c1 (EvDone sid r)) evs2) ->
+              sf_sid fr = sid -> sf_kind fr <> KRst) ->
+  exists blk frames,
+    rf sid (trace c) = OHeaders sid (isnil B) blk :: frames_out sid frames /\ Forall small frames /\
+    ((strms_search (sc_strms c) sid = None /\ concat (map snd frames) = B /\ es_shape frames (negb (isnil B)))
+     \/
+     (exists s, strms_search (sc_strms c) sid = Some s /\ st_pending s <> [] /\ concat (map snd frames) ++ st_pending s = B /\
+                st_bodyStream s = None /\ es_shape frames false /\
+                ((st_window s <= 0)%Z \/ (sc_clientWindow c <= 0)%Z) /\
+                l_strm L sid = Some (st_window s) /\ l_conn L = sc_clientWindow c)).
+Proof. exact response_progress. Qed.
+Print Assumptions C06_response_progress.
+
+(* every response completes once the peer has granted enough: under the same hypotheses, if the grants applied so far
+   leave both windows of the peer's ledger positive, all of B has been sent, in order, with END_STREAM exactly once *)
+Theorem C06_completes_when_granted : forall (hstate : Type) (dec_field : hstate -> N -> bytes -> dec_res hstate)
+    (enc_field : hstate -> bytes -> bytes -> bool -> bytes * hstate) (enc_set_max : hstate -> N -> hstate) cfg h0
+    evs1 sid r B evs2,
+  let c1 := run dec_field enc_field enc_set_max cfg h0 evs1 in
+  let evs := evs1 ++ EvDone sid r :: evs2 in
+  let c := run dec_field enc_field enc_set_max cfg h0 evs in
+  let L := lrun ledger0 (timeline hstate dec_field enc_field enc_set_max cfg h0 evs) in
+  rs_body r = BBuffered B ->
+  sc_sl_done c1 = false -> take_stream (sc_gone c1) sid = None ->
+  (exists s, strms_search (sc_strms c1) sid = Some s /\ st_handlerRunning s = true) ->
+  sc_sl_done c = false -> sc_wl_dead c = false -> sc_closing c = false ->
+  (forall o code, In o (trace c) -> strip o <> ORst sid code) ->
+  (forall fr, In fr (taken_from hstate dec_field enc_field enc_set_max cfg
+                       (step dec_field enc_field enc_set_max cfg c1 (EvDone sid r)) evs2) ->
+              sf_sid fr = sid -> sf_kind fr <> KRst) ->
+  (0 < l_conn L)%Z -> (forall w, l_strm L sid = Some w -> (0 < w)%Z) ->
+  exists blk frames,
+    rf sid (trace c) = OHeaders sid (isnil B) blk :: frames_out sid frames /\ Forall small frames /\
+    strms_search (sc_strms c) sid = None /\ concat (map snd frames) = B /\ es_shape frames (negb (isnil B)).
+Proof. exact completes_when_granted. Qed.
+Print Assumptions C06_completes_when_granted.
+
+(* ---------- examples: two responses (100000 and 70000 bytes) sharing the connection window ---------- *)
+
+(* after: both handlers returned, WINDOW_UPDATE(0, 50000), SETTINGS_INITIAL_WINDOW_SIZE = 20000, WINDOW_UPDATE(3, 60000).
+   Stream 1 sent 65535 bytes and waits with 34465, its window driven to -45535 by the SETTINGS change; stream 3 sent
+   50000, has a POSITIVE window 30000 and waits on the connection window (0). Server windows = ledger windows. *)
+Example C06_windows_exact_example :
+  let evs := ex_two_pre ++ EvDone 1 (resp 100000) :: ex_two_mid in
+  let c := srv_run ex_cfg evs in
+  sc_sl_done c = false /\ sc_wl_dead c = false /\
+  map (fun s => (st_id s, st_window s, len (st_pending s))) (sc_strms c) = [(1, (-45535)%Z, 34465); (3, 30000%Z, 20000)] /\
+  sc_clientWindow c = 0%Z /\ l_conn (srv_ledger ex_cfg evs) = 0%Z /\
+  l_strm (srv_ledger ex_cfg evs) 1 = Some (-45535)%Z /\ l_strm (srv_ledger ex_cfg evs) 3 = Some 30000%Z.
+Proof. vm_compute. repeat split. Qed.
+
+(* stream 3 of that state: bytes left, its own window positive, held back by the connection window of the ledger *)
+Example C06_waiting_blocked_by_ledger_example :
+  let evs := ex_two_pre ++ EvDone 1 (resp 100000) :: ex_two_mid in
+  let c := srv_run ex_cfg evs in
+  exists s, In s (sc_strms c) /\ st_id s = 3 /\
+    st_responded s && negb (st_handlerRunning s) && has_more_to_send s = true /\
+    st_window s = 30000%Z /\ l_strm (srv_ledger ex_cfg evs) 3 = Some 30000%Z /\ l_conn (srv_ledger ex_cfg evs) = 0%Z.
+Proof.
+  cbv zeta. exists (nth 1 (sc_strms (srv_run ex_cfg (ex_two_pre ++ EvDone 1 (resp 100000) :: ex_two_mid))) (new_stream 0 0)).
+  split; [apply nth_In; vm_compute; repeat constructor|]. vm_compute. repeat split.
+Qed.
+
+(* the hypotheses of C06_response_progress hold for stream 1 in that run, and the conclusion is the WAITING branch:
+   HEADERS + 16384 + 16384 + 16384 + 16383 bytes sent (a prefix of the body), 34465 left, stream window -45535 *)
+Example C06_response_progress_example :
+  let c1 := srv_run ex_cfg ex_two_pre in
+  let evs := ex_two_pre ++ EvDone 1 (resp 100000) :: ex_two_mid in
+  let c := srv_run ex_cfg evs in
+  sc_sl_done c1 = false /\ take_stream (sc_gone c1) 1 = None /\
+  (exists s, strms_search (sc_strms c1) 1 = Some s /\ st_handlerRunning s = true) /\
+  sc_sl_done c = false /\ sc_wl_dead c = false /\ sc_closing c = false /\
+  (forall o code, In o (srv_trace c) -> strip o <> ORst 1 code) /\
+  (forall fr, In fr (srv_taken_from ex_cfg (srv_step ex_cfg c1 (EvDone 1 (resp 100000))) ex_two_mid) ->
+              sf_sid fr = 1 -> sf_kind fr <> KRst) /\
+  map brief (rf 1 (srv_trace c)) = [BH 1 false; BD 1 false 16384; BD 1 false 16384; BD 1 false 16384; BD 1 false 16383] /\
+  option_map (fun s => (len (st_pending s), st_window s, st_bodyStream s)) (strms_search (sc_strms c) 1)
+    = Some (34465, (-45535)%Z, None) /\
+  l_strm (srv_ledger ex_cfg evs) 1 = Some (-45535)%Z /\ l_conn (srv_ledger ex_cfg evs) = sc_clientWindow c.
+Proof.
+  cbv zeta. split; [vm_compute; reflexivity|]. split; [vm_compute; reflexivity|].
+  split; [eexists; split; vm_compute; reflexivity|].
+  split; [vm_compute; reflexivity|]. split; [vm_compute; reflexivity|]. split; [vm_compute; reflexivity|].
+  split; [apply no_rst_out_ok; vm_compute; reflexivity|]. split; [apply no_rst_in_ok; vm_compute; reflexivity|].
+  vm_compute. repeat split.
+Qed.
+
+(* the rest of the grants arrive (WINDOW_UPDATE(0, 200000), WINDOW_UPDATE(1, 100000)): both ledger windows of
+   stream 1 are positive (connection 145535, stream 20000) and the response is complete: 7 DATA frames, 100000 bytes,
+   END_STREAM on the last one only; the same for stream 3 (70000 bytes) *)
+Example C06_completes_when_granted_example :
+  let c1 := srv_run ex_cfg ex_two_pre in
+  let evs2 := ex_two_mid ++ ex_two_end in
+  let evs := ex_two_pre ++ EvDone 1 (resp 100000) :: evs2 in
+  let c := srv_run ex_cfg evs in
+  sc_sl_done c = false /\ sc_wl_dead c = false /\ sc_closing c = false /\
+  (forall o code, In o (srv_trace c) -> strip o <> ORst 1 code) /\
+  (forall fr, In fr (srv_taken_from ex_cfg (srv_step ex_cfg c1 (EvDone 1 (resp 100000))) evs2) ->
+              sf_sid fr = 1 -> sf_kind fr <> KRst) /\
+  l_conn (srv_ledger ex_cfg evs) = 145535%Z /\ l_strm (srv_ledger ex_cfg evs) 1 = Some 20000%Z /\
+  strms_search (sc_strms c) 1 = None /\
+  map brief (rf 1 (srv_trace c)) =
+    [BH 1 false; BD 1 false 16384; BD 1 false 16384; BD 1 false 16384; BD 1 false 16383;
+     BD 1 false 16384; BD 1 false 16384; BD 1 true 1697] /\
+  map brief (rf 3 (srv_trace c)) =
+    [BH 3 false; BD 3 false 16384; BD 3 false 16384; BD 3 false 16384; BD 3 false 848; BD 3 false 16384; BD 3 true 3616].
+Proof.
+  cbv zeta. split; [vm_compute; reflexivity|]. split; [vm_compute; reflexivity|]. split; [vm_compute; reflexivity|].
+  split; [apply no_rst_out_ok; vm_compute; reflexivity|]. split; [apply no_rst_in_ok; vm_compute; reflexivity|].
+  vm_compute. repeat split.
 Qed.
